@@ -347,13 +347,16 @@ PROPS = {
             "added after seeding round 4: generated filters carry hash-function counts above the constructor's cap (51, 60, 200), as can arrive from the wire",
             'BOUNDED + ASSUMED at call sites: MurmurHash3 = published MurmurHash3_x86_32 (reference in specs/bloom.py), 1500 generated (seed, data) pairs per run covering every length mod 4',
             'BOUNDED: bits set by insert = BIP37 schedule over the reference hash, contains after insert, empty and full (0xff) filters; constructor caps (float sizing); wire round trip incl. membership answers - 600 generated cases each',
-            'the bit-level effect of insert/contains is not proved (only index safety, frames and the empty-data rule are); bit operations on symbolic bytes are handled by an 8-way case split on the mask',
+            'PROVED since round 7 (no longer only bounded): the bit-level effect of insert and contains - insert_sets_schedule_bits (the bit of every hash function j is set afterwards; ghost j and ghost bit index, i.e. universally quantified), insert_keeps_set_bits (no set bit is ever cleared), contains_when_all_bits_set (a filter holding all schedule bits of an element answers True), contains_false_names_unset_bit (True only if every schedule bit is set). No-false-negatives over a HISTORY of insertions is the induction over these per-call contracts (on paper: generalisation over the ghosts, then one step per later insertion); bit operations on symbolic bytes are handled by an 8-way case split on the mask and on the bit position',
+            'BOUNDED still: that insert sets NO OTHER bits than the schedule (exact contents against the reference, insert_is_bip37), MurmurHash3 itself, constructor caps, wire round trip',
         ],
         'level_text': 'Proved: bloom_hash = murmur(i*0xFBA4C795 + tweak mod 2^32, data) mod (8*len(vData)) and lies inside the '
                       'filter; insert and contains never raise for any filter state - in particular a filter with empty data '
                       'inserts nothing and matches everything - every byte index is in range, size/tweak/flags/hash count are '
-                      'unchanged; stream_serialize emits var_bytes(data) + <IIB fields. Bounded: hash function, bit schedule, '
-                      'no-false-negatives, caps, wire round trip.',
+                      'unchanged; NO FALSE NEGATIVES per call, for every data length and hash-function count: after insert(e) the bit '
+                      'of every hash function of the BIP37 schedule of e is set, insert never clears a set bit, and contains(e) is '
+                      'True whenever all schedule bits of e are set (and True only then); stream_serialize emits var_bytes(data) + '
+                      '<IIB fields. Bounded: the hash function itself, exactness of the set bits (no others), caps, wire round trip.',
         'level_note': 'trusted: pyvc, z3/cvc5, assumed MurmurHash3 contract (bounded-checked), specs/bloom.py',
         'design_ref': 'DESIGN.md 5 C20',
         'explanation': 'bloom contracts',
